@@ -42,6 +42,23 @@ def glueBeforeWatch : Glue := { expectedGlue with watchesModel := false, storesC
 /-- the glue with the two statements of the recompile branch in the other order (remember first, compile then) -/
 def glueStoreFirst : Glue := { expectedGlue with compileBeforeStore := false }
 
+/-- the glue with the remembered cache object read BEFORE compiling (a local read at the top of `jac_fn`, or the entry
+    placed before `"fn"` in the dict): the conversion replaces the object, so what is remembered is never the current one -/
+def glueReadBefore : Glue := { expectedGlue with cacheFrom := "model._cache (read before compiling)" }
+
+/-- per operation of a history on a fresh Simulator: does the closure compile again at this point? -/
+def histCompiles (g : Glue) (c : SContent) (ops : List SimOp) : Option (List Bool) :=
+  match simInitG g c with
+  | .error _ => none
+  | .ok s0 =>
+    let rec go (s : SimState) : List SimOp → Option (List Bool)
+      | [] => some []
+      | op :: rest =>
+        match s.stepG g op with
+        | .error _ => none
+        | .ok (s', _) => (go s' rest).map ((match op with | .call _ _ => s.recompilesG g | _ => false) :: ·)
+    go s0 ops
+
 /-- what a fresh Simulator's `jac_fn` answers, as an output of the state machine -/
 def outOf : Option (List (List Rat)) → SimOut
   | some J => .mat J
